@@ -75,7 +75,11 @@ class RmqShaped(kc.CommunicatorHelper):
             raise exc
         for subscriber in list(self._broadcast_subscribers.values()):
             try:
-                subscriber(self, body, sender, subject, correlation_id)
+                if getattr(self, 'keyword_delivery', False):
+                    # kiwipy.LocalCommunicator hands broadcasts to its subscribers by keyword
+                    subscriber(self, body=body, sender=sender, subject=subject, correlation_id=correlation_id)
+                else:
+                    subscriber(self, body, sender, subject, correlation_id)
             except Exception as err:  # noqa: BLE001  (the RMQ communicator logs and carries on)
                 self.receiver_errors.append(repr(err))
         return True
